@@ -75,11 +75,15 @@ def expand(job):
                 case["dvia"] = rnd.choice(["parse", "floatdays", "standardize"])
             if rnd.random() < 0.1:
                 case["prearith"] = rnd.randint(1, 6)
-            if rnd.random() < 0.04:
+            if rnd.random() < 0.07:
                 # exact multiples of the calendar's own cycles: 20871 weeks = 146097 days = 400 Gregorian years, 52/53 weeks, 365/366 days
                 k_ = rnd.choice([1, 1, 2, -1])
                 case["d"] = rnd.choice([{"w": 20871 * k_}, {"d": 146097 * k_}, {"w": 20870 * k_}, {"d": 146096 * k_, "h": 24 * k_}, {"w": 52 * k_},
                                         {"w": 53 * k_}, {"d": 365 * k_}, {"d": 366 * k_}, {"h": 24 * 146097 * k_}, {"d": 360 * 400 * k_}])
+                if case["p"]["rep"] == "week" and k_ > 0 and rnd.random() < 0.5:
+                    # ... and week counts that bring the week NUMBER itself to a whole multiple of the 400-year cycle
+                    w_ = 20871 * k_ - case["p"]["a"]
+                    case["d"] = rnd.choice([{"w": w_}, {"d": 7 * w_}, {"d": 7 * w_ - 1, "h": 24}])
                 case.pop("dvia", None)
             yield case
     elif k == "cancel":
